@@ -3,8 +3,8 @@
     calculate_rho(_nu), solve}; permutable_kernel.rs; classification.rs fit_c / fit_nu / fit_one_class;
     regression.rs fit_epsilon / fit_nu; lib.rs Svm::weighted_sum / nsupport; linfa-kernel
     KernelMethod::distance up to its exp / powf call).  A transliteration of the code after the repairs
-    design-notes/fixes/C13_F10.diff (shrinking), C13_F25.diff (nu-SVC linear hyperplane) and C13_F27.diff
-    (nu-SVR uses the nu solver); the unrepaired code fails the correspondence and the oracle of C13/Corr.v.  Polymorphic in NumOps; run at B64_ops against the Rust f64 implementation bit for bit. *)
+    432f285 (F10, shrinking; design-notes/fixes/C13_F10.diff) and edbd656 (F31, nu-SVC linear hyperplane;
+    C13_F25.diff); nu-SVR is modelled as it is (nu_constraint = false, known finding F32).  Polymorphic in NumOps; run at B64_ops against the Rust f64 implementation bit for bit. *)
 From Coq Require Import List NArith ZArith Bool.
 From LinfaVerif Require Import Common.Num Common.NdSum.
 Import ListNotations.
@@ -475,6 +475,14 @@ Definition is_support (a : F) : bool := gtb (abs o a) (hundred * feps).
 Definition support_vectors (rows : list (list F)) (alpha : list F) : list (list F) :=
   map fst (filter (fun e => is_support (snd e)) (combine rows alpha)).
 
+(* tmp.scaled_add(sign_i * alpha_i, row_i) over the dataset rows, starting from zeros(d) *)
+Definition hyperplane_of (sign : list F) (rows : list (list F)) (alpha : list F) (d : nat) : list F :=
+  fold_left (fun w (e : F * (list F * F)) =>
+               let '(sg, (row, a)) := e in
+               let c := sg * a in
+               zipp (fun y x => y + c * x) w row)
+            (combine sign (combine rows alpha)) (repeat 0 d).
+
 (* the part of solve() after the loop *)
 Definition finish (P : problem) (s : state) (iter : N) : svm :=
   let '(s1, rho) := if pNu P then rho_nu s else (s, rho_std s) in
@@ -490,11 +498,7 @@ Definition finish (P : problem) (s : state) (iter : N) : svm :=
   let sep :=
     if pLinear P then
       let d := match pRows P with [] => O | r :: _ => length r end in
-      HLinear (fold_left (fun w (e : F * (list F * F)) =>
-                   let '(sg, (row, a)) := e in
-                   let c := sg * a in
-                   zipp (fun y x => y + c * x) w row)
-                 (combine sign (combine (pRows P) alpha)) (repeat 0 d))
+      HLinear (hyperplane_of sign (pRows P) alpha d)
     else HSupport (support_vectors (pRows P) alpha) in
   {| mAlpha := alpha; mRho := rho; mR := if pNu P then Some (sR s1) else None;
      mObj := v / two; mIter := iter; mSep := sep |}.
@@ -584,7 +588,8 @@ Definition nu_svr_init (n : nat) (c nu : F) : list F :=
 
 Definition fit_nu_svr (fuel : nat) (K rows : list (list F)) (y : list F) (eps : F) (shr lin : bool) (nu c : F) : outcome :=
   let n := length y in
-  let P := mk_problem K rows (repeat c (Nat.mul 2 n)) eps shr true lin in
+  (* nu_constraint = false: the plain solver runs from the nu-dependent start (known finding F32) *)
+  let P := mk_problem K rows (repeat c (Nat.mul 2 n)) eps shr false lin in
   solve fuel P (reg_state P n (nu_svr_init n c nu) (map (fun t => - t) y ++ y)).
 
 (** * lib.rs: Svm::weighted_sum, nsupport, the decision rules *)
